@@ -19,7 +19,7 @@ fn cb(body: Vec<MOp>) -> Op {
 fn cbr(body: Vec<MOp>) -> Op {
     Op::Cb { a: 0, kind: CbKind::MutateRoot, body }
 }
-fn alloc(id: Id, kind: Kind, n: u8, init: Vec<Option<Id>>) -> MOp {
+fn alloc(id: Id, kind: Kind, n: u32, init: Vec<Option<Id>>) -> MOp {
     MOp::Alloc { id, kind, n, init }
 }
 fn sets(p: Ref, slot: u8, c: Option<Id>) -> MOp {
@@ -107,7 +107,7 @@ impl<'a> Tab<'a> {
         let nshards = self.args.num("nshards", 1) * mult;
         let sample = self.args.num("sample", 1);
         if let Some(only) = self.args.m.get("only") {
-            if &name != only {
+            if &name != only && !(only.ends_with('*') && name.starts_with(only.trim_end_matches('*'))) {
                 return true;
             }
         } else {
@@ -481,8 +481,63 @@ pub fn table_c07(t: &mut Tab) {
 /// marked parent of every kind (tracing and non-tracing), with 0-3 other traced objects in the
 /// cycle, with a marking increment between the rounds; the debt is kept positive so that a counter
 /// that wraps or underflows shows as a panic (debug) or as a collapsing debt (release).
+/// trace-fault accounting: a wide container (long gray queue), k single steps, one step with a
+/// trace panic injected at event position f, then a write barrier on every reachable object: each
+/// marked object hands its trace credit back, so a credit lost on the unwind path underflows here
+fn table_c10_faults(t: &mut Tab) -> bool {
+    for m in [1u32, 8, 127, 128, 129, 130, 300] {
+        for swh in [false, true] {
+            for k in 0..5u32 {
+                for f in 1..=26u32 {
+                    for rev in [false, true] {
+                        if rev && (f % 3 != 0) {
+                            continue;
+                        }
+                        let name = format!("tracefault|{}{}|k{}|f{}|{}", if swh { "swh" } else { "slice" }, m, k, f, if rev { "rev" } else { "fwd" });
+                        let cont = t.run(
+                            name,
+                            || {
+                                let mut body = vec![MOp::Burst { n: m, kind: if m % 2 == 0 { Kind::RCell } else { Kind::Node }, first_id: 10 }];
+                                let init: Vec<Option<Id>> = (0..m).map(|i| Some(10 + i)).collect();
+                                body.push(alloc(1, if swh { Kind::Swh } else { Kind::Slice }, if swh { m - 1 } else { m }, init));
+                                body.push(sets(Ref::Root, 0, Some(1)));
+                                let mut ops = vec![Op::New { a: 0, via: NewKind::New, body }, Op::SetPacing { a: 0, p: PacingSpec::STEPPER }];
+                                for _ in 0..k {
+                                    ops.push(col(COp::StepMark));
+                                }
+                                ops.push(Op::Collect { a: 0, op: COp::StepMark, fault: f });
+                                let mut touch: Vec<MOp> = (0..m).map(|i| MOp::Touch { o: 10 + i }).collect();
+                                touch.push(MOp::BarrierOnly { p: 1, c: None, mode: 1 });
+                                if rev {
+                                    touch.reverse();
+                                }
+                                ops.push(cb(touch));
+                                ops.push(col(COp::StepMark));
+                                ops.push(col(COp::StepMark));
+                                ops.push(Op::AdjustDebt { a: 0, amt: 1000.0 });
+                                ops.push(col(COp::CycleDebt));
+                                ops.push(Op::Audit { a: 0 });
+                                ops.push(Op::DropArena { a: 0 });
+                                ops
+                            },
+                            |s| s.get("debt_monotonic_checks") >= 1 && s.c.iter().any(|(k, v)| *v > 0 && k.starts_with("touch_") && !k.ends_with("_Sleeping")),
+                        );
+                        if !cont {
+                            return false;
+                        }
+                    }
+                }
+            }
+        }
+    }
+    true
+}
+
 pub fn table_c10(t: &mut Tab) {
-    let kinds: [(Kind, u8); 9] = [(Kind::Node, 0), (Kind::RCell, 0), (Kind::LCell, 0), (Kind::Leaf, 0), (Kind::LeafLock, 0), (Kind::Stat, 0), (Kind::Str, 3), (Kind::Slice, 1), (Kind::Swh, 1)];
+    if !table_c10_faults(t) {
+        return;
+    }
+    let kinds: [(Kind, u32); 9] = [(Kind::Node, 0), (Kind::RCell, 0), (Kind::LCell, 0), (Kind::Leaf, 0), (Kind::LeafLock, 0), (Kind::Stat, 0), (Kind::Str, 3), (Kind::Slice, 1), (Kind::Swh, 1)];
     for (kind, n) in kinds {
         for extra in 0..4u32 {
             // modes 0..5 = the six explicit barrier forms with a fresh white child, 6 = touch
